@@ -4,6 +4,7 @@ import (
 	"fmt"
 	"go/token"
 	"go/types"
+	"os"
 
 	"gosym/smt"
 )
@@ -125,10 +126,12 @@ func bytesCompareValue(a, b []value) value {
 func eqTerm(t types.Type, x, y value) *smt.Term {
 	switch x := x.(type) {
 	case sv:
-		return smt.Eq(x.t, toTerm(y))
+		a, b := termPair(x, y)
+		return smt.Eq(a, b)
 	case bool, int, int8, int16, int32, int64, uint, uint8, uint16, uint32, uint64, uintptr:
-		if ys, ok := y.(sv); ok {
-			return smt.Eq(toTerm(x), ys.t)
+		if _, ok := y.(sv); ok {
+			a, b := termPair(x, y)
+			return smt.Eq(a, b)
 		}
 		return smt.Bool(x == y)
 	case float32:
@@ -210,6 +213,9 @@ func shiftCount(y value, w int) *smt.Term {
 	return smt.Ite(big, smt.Const(w, uint64(w)), smt.Extract(yt, w-1, 0))
 }
 
+// UDivAux: encode unsigned division by a constant with auxiliary variables.
+var UDivAux = os.Getenv("GOSYM_UDIVAUX") != ""
+
 // symBinop handles binary operators when at least one operand is symbolic.
 func symBinop(op token.Token, t types.Type, x, y value) value {
 	// strings
@@ -237,6 +243,11 @@ func symBinop(op token.Token, t types.Type, x, y value) value {
 	xk, okx := kindOf(x)
 	if !okx {
 		panic(fmt.Sprintf("symBinop: unsupported operand %T %s %T", x, op, y))
+	}
+	if xk != types.Bool {
+		if ixt, iyt := termPair(x, y); isIntTerm(ixt) {
+			return intBinop(op, xk, ixt, iyt, y)
+		}
 	}
 	xt := toTerm(x)
 	if op == token.SHL || op == token.SHR {
@@ -275,6 +286,15 @@ func symBinop(op token.Token, t types.Type, x, y value) value {
 	case token.QUO, token.REM:
 		if cur.branch(smt.Eq(yt, smt.Const(yt.W, 0))) {
 			panic(runtimeError("integer divide by zero"))
+		}
+		if UDivAux && !signed && yt.IsConst() && yt.V > 1 && !xt.IsConst() {
+			// division by a constant: quotient/remainder as auxiliary variables with the
+			// defining constraint x = q*c + r, r < c (a multiplier by a constant instead of a divider)
+			q, r := cur.udivConst(xt, yt.V)
+			if op == token.QUO {
+				return fromTerm(q, xk)
+			}
+			return fromTerm(r, xk)
 		}
 		switch {
 		case op == token.QUO && signed:
@@ -323,6 +343,9 @@ func symBinop(op token.Token, t types.Type, x, y value) value {
 }
 
 func symUnop(op token.Token, x sv) value {
+	if isIntTerm(x.t) {
+		return intUnop(op, x)
+	}
 	switch op {
 	case token.SUB:
 		return fromTerm(smt.Neg(x.t), x.k)
@@ -336,6 +359,9 @@ func symUnop(op token.Token, x sv) value {
 
 // symConvInt converts a symbolic integer to basic kind dst.
 func symConvInt(x sv, dst types.BasicKind) value {
+	if isIntTerm(x.t) {
+		return intConv(x, dst)
+	}
 	switch dst {
 	case types.Float32, types.Float64, types.String, types.Complex64, types.Complex128:
 		unsupported("conversion of symbolic integer to kind %d", dst)
@@ -410,7 +436,8 @@ func iteValue(c *smt.Term, a, b value) value {
 		}
 		return b
 	}
-	return fromTerm(smt.Ite(c, toTerm(a), toTerm(b)), ak)
+	at, bt := termPair(a, b)
+	return fromTerm(smt.Ite(c, at, bt), ak)
 }
 
 func sameConcrete(a, b value) (eq bool) {
